@@ -508,6 +508,14 @@ def Sys.afterTCell (s : Sys) (a : Nat) (ag : Agent) (p : Peptide) (mem : Memory)
          .resp ⟨r.level, if supp then modified else r.action, r.s1, r.s2, r.viols,
                 if supp then false else r.anergic⟩)
 
+/-- what a recall hit answers: the stored pair — unless the current fingerprint is CRITICAL by the T cell's own table
+    with memory as the second signal (`_determine_response(NON_SELF, CROSS_VALIDATED, len(violations), peptide)`):
+    memory never softens a critical threat -/
+def recalledPair (t : TCell) (p : Peptide) (sig : Sig) : Level × Action :=
+  if (respond .nonSelf .cross (decide (3 ≤ (check t.profile p).length)) (canaryLow p)).1 = .critical then
+    respond .nonSelf .cross (decide (3 ≤ (check t.profile p).length)) (canaryLow p)
+  else (sig.level, sig.action)
+
 /-- `ImmuneSystem.inspect`.  A remembered threat answers only when the watcher is not anergic and the current
     fingerprint violates the baseline (memory is a second signal, never a substitute for the first). -/
 def Sys.inspect (s : Sys) (a : Nat) : Sys × InspectOut :=
@@ -522,7 +530,7 @@ def Sys.inspect (s : Sys) (a : Nat) : Sys × InspectOut :=
         if !t.isAnergic && !(check t.profile p).isEmpty then
           (⟨s.minTrain, s.tol, s.varThr, s.treg,
             ⟨s.mem.cap, (recallGo a p.vocab p.struct (s.clock + 1) s.mem.sigs).1⟩, s.clock + 1, s.agents⟩,
-           .resp ⟨sig.level, sig.action, .nonSelf, .cross, [.recalled], false⟩)
+           .resp ⟨(recalledPair t p sig).1, (recalledPair t p sig).2, .nonSelf, .cross, [.recalled], false⟩)
         else
           s.afterTCell a (s.agents a) p ⟨s.mem.cap, (recallGo a p.vocab p.struct (s.clock + 1) s.mem.sigs).1⟩
             (t.inspect p).1 (t.inspect p).2
